@@ -43,3 +43,18 @@ func (t *Task) VerifTaskState() (executing, canceled, queued, prioritized, sched
 	defer t.lock.Unlock()
 	return t.executing, t.canceled, t.queueElement != nil, t.prioritizedQueueElement != nil, t.scheduleListElement != nil
 }
+
+// VerifScheduleOrder returns the task names and execution times of the task
+// schedule in list order. Only call it while no task call is in flight, as the
+// execution times are read without the task locks.
+func VerifScheduleOrder() (names []string, executeAt []time.Time) {
+	scheduleLock.Lock()
+	defer scheduleLock.Unlock()
+
+	for e := taskSchedule.Front(); e != nil; e = e.Next() {
+		t := e.Value.(*Task) //nolint:forcetypeassert // Can only be *Task.
+		names = append(names, t.name)
+		executeAt = append(executeAt, t.executeAt)
+	}
+	return
+}
